@@ -39,3 +39,27 @@ Theorem C02_hypotheses_are_checked : forall c, wf_case c = true ->
   wf (lw (w c)) /\ (forall t, In t (tests (w c)) -> t_layer t < nlayers (lw (w c))).
 Proof. exact wf_case_hyps. Qed.
 Print Assumptions C02_hypotheses_are_checked.
+
+(* ------------------------------------------------------------------------------------------------------------
+   Observation level.  The verdict predicate Obs.c02_ok that the check evaluates on the IMPLEMENTATION's
+   observation ("failed iff a started test is bad, a layer hook failed observably, or an import failed") holds of
+   the MODEL's observation of every run … *)
+From ZT Require Import Obs ModelCase ObsC02.
+
+Theorem C02_predicate_holds_of_model : forall w o inj,
+  wf (lw w) -> (forall t, In t (tests w) -> t_layer t < nlayers (lw w)) ->
+  c02_ok (model_case w o inj) false = true.
+Proof. exact c02_ok_model. Qed.
+Print Assumptions C02_predicate_holds_of_model.
+
+(* … and a sequential case on which the correspondence check finds no difference IS the model's observation, so
+   the predicate holds of the implementation's observation: for C02 bit 1 clear and bit 4 clear imply bit 2 clear. *)
+Theorem C02_agreeing_case_is_the_model : forall c, agree c = true -> Nat.ltb 1 (o_procs (Chk_World.o c)) = false ->
+  c = model_case (Chk_World.w c) (Chk_World.o c) (i_injected c).
+Proof. exact agree_is_model. Qed.
+Print Assumptions C02_agreeing_case_is_the_model.
+
+Theorem C02_check_sound : forall c, agree c = true -> wf_case c = true -> Nat.ltb 1 (o_procs (Chk_World.o c)) = false ->
+  c02_ok c false = true.
+Proof. exact c02_check_sound. Qed.
+Print Assumptions C02_check_sound.
